@@ -71,9 +71,9 @@ func declKind(name string) kind {
 
 // kindCfg tables what names cannot say.
 type kindCfg struct {
-	fields  map[*types.Var]kind   // struct fields with a known kind
+	fields  map[*types.Var]kind    // struct fields with a known kind
 	results map[*types.Func][]kind // results of functions/methods (by index)
-	conv    map[*types.Func]bool  // converters: (height, height) -> index
+	conv    map[*types.Func]bool   // converters: (height, height) -> index
 }
 
 type kflow struct {
